@@ -8,6 +8,15 @@ From JR Require Skeletons.
 Open Scope N_scope.
 
 Theorem c15_source_facts :
+  (* the hand-over channel is unbuffered: a request that was handed over is in the loop's hands (registered, or failed) and
+     none can be stranded in a queue when the loop ends; the response channel of a request holds one response, so
+     delivering to it never blocks (closeInFlight under its lock, a response racing the caller's cancellation) *)
+  JRGen.Extracted.requester_chan_makes =
+    ["setupRequestChan: make(chan clientRequest)"; "setupRequestChan: make(chan clientResponse, 1)"; "sendRequest: make(chan clientResponse, 1)"]%string /\
+  (* a pong is written with a deadline of one second from now (never unbounded, never already past), and no write deadline
+     is ever set on the connection itself *)
+  JRGen.Extracted.write_control_calls = ["conn.WriteControl(websocket.PongMessage, []byte(appData), time.Now().Add(time.Second))"]%string /\
+  JRGen.Extracted.write_deadline_calls = [] /\
   Extracted.lazywriter_has_failed_arm = true /\
   Extracted.callsites_closeInFlight = ["tryReconnect"; "handleWsConn"]%string /\
   Extracted.handleCall_ctx_derivation = "context.WithCancel(ctx)"%string /\
